@@ -90,7 +90,7 @@ func NewFastHTTPHandler(h http.Handler) fasthttp.RequestHandler {
 			// Buffered, no Flush() nor Hijack().
 			ctx.SetStatusCode(w.status())
 			haveContentType := false
-			for k, vv := range w.Header() {
+			for k, vv := range w.header() {
 				if k == fasthttp.HeaderContentType {
 					haveContentType = true
 				}
@@ -119,7 +119,7 @@ func NewFastHTTPHandler(h http.Handler) fasthttp.RequestHandler {
 			ctx.SetStatusCode(w.status())
 
 			haveContentType := false
-			for k, vv := range w.Header() {
+			for k, vv := range w.header() {
 				// No Content-Length when streaming.
 				if k == fasthttp.HeaderContentLength {
 					continue
@@ -203,6 +203,11 @@ type writer struct {
 	h          http.Header
 	statusCode atomic.Int64
 
+	// sentHeader is the snapshot of h taken when the response header is
+	// written, i.e. by the first WriteHeader with a final status or the first
+	// Write. As with net/http, changes made to h afterwards have no effect.
+	sentHeader http.Header
+
 	mu           sync.Mutex
 	responseBody []byte
 	bufPool      *[]byte
@@ -250,10 +255,40 @@ func (w *writer) WriteHeader(code int) {
 	if code < 100 || code > 999 {
 		panic(fmt.Sprintf("invalid WriteHeader code %v", code))
 	}
-	w.statusCode.CompareAndSwap(0, int64(code))
+	if code >= 100 && code <= 199 && code != http.StatusSwitchingProtocols {
+		// Informational responses are interim: the final status is still to
+		// come. They are not forwarded.
+		return
+	}
+	w.writeHeader(code)
+}
+
+// writeHeader fixes the status code and the header of the final response,
+// unless that has been done already.
+func (w *writer) writeHeader(code int) {
+	w.mu.Lock()
+	if w.statusCode.CompareAndSwap(0, int64(code)) {
+		w.sentHeader = w.h.Clone()
+	}
+	w.mu.Unlock()
+}
+
+// header returns the header of the final response.
+func (w *writer) header() http.Header {
+	w.mu.Lock()
+	defer w.mu.Unlock()
+	if w.sentHeader != nil {
+		return w.sentHeader
+	}
+	return w.h
 }
 
 func (w *writer) Write(p []byte) (int, error) {
+	// As with net/http, the first Write implies WriteHeader(http.StatusOK).
+	if w.statusCode.Load() == 0 {
+		w.writeHeader(w.status())
+	}
+
 	select {
 	case <-w.streamReady:
 		return w.pw.Write(p)
@@ -278,6 +313,10 @@ func (w *writer) Write(p []byte) (int, error) {
 }
 
 func (w *writer) Flush() {
+	// As with net/http, Flush sends the header if it has not been sent yet.
+	if w.statusCode.Load() == 0 {
+		w.writeHeader(w.status())
+	}
 	w.flushOnce.Do(func() {
 		select {
 		case w.modeCh <- modeFlushed:
